@@ -1,7 +1,8 @@
 CONFIG = dict(
     id="C01",
     engine="bubble-actor",
-    technique="Lean 4 invariant proofs over all op lists of a small-step model of doRequestEx/handleResponse/checkExpired, the node-level app.Request/Notify no-route branch and ResponseEx's reply decision "
+    technique="Lean 4 invariant proofs over all op lists of a small-step model of doRequestEx/handleResponse/checkExpired, the node-level app.Request/Notify no-route branch, ResponseEx's reply decision "
+              "and of the actor's restarts (live Service object + orphaned ones, Model/ServiceLife.lean) "
               "+ differential correspondence with the real actorex/service.Service in a testing/synctest bubble (virtual clock) "
               "+ the exactly-once predicate evaluated on the implementation's own callback log / pending table",
     level_text="Machine-checked proof in Lean 4 that in the model of the service request core every issue instance's callback is invoked at most once, "
@@ -16,11 +17,15 @@ CONFIG = dict(
                "(exactly_once_despite_panics), leave the callback count at exactly 1: the fairness hypothesis is explicit in the op list. "
                "The node-level no-route branch (app.Request/QuerySession/Kick -> ErrorNoService through the callback, app.Notify -> nothing) is an op of the model: completed at once, exactly once, for ever, nothing registered/sent/armed; "
                "ResponseEx answers exactly the ids AllocReqId can hand out with a sender (never id 0). "
+               "Restarts of the actor (a panic on the service goroutine outside an expiry scan: a callback under handleResponse, handler code) are a model of their own on top (Life = live object + orphans, LOp.crash): "
+               "proved for all histories with any number of crashes: every incarnation, live or orphaned, is a reachable state of the one-object model, so all theorems above hold per incarnation (every_incarnation_is_a_run, cb_at_most_once_across_restarts); "
+               "a restart leaves a fresh object (empty table, allocator 0, no timer) and orphans the old one unchanged and at rest with its timer armed (restart_orphans_the_table); responses reach the live object only and an orphaned request can only time out "
+               "(response_reaches_live_only, orphan_completes_only_by_timeout); and - the hazard, for every history, payload and wrap bound - the reply to an old request registered under id 1 completes the NEW object's first request instead (reply_crosses_restart). "
                "The model is tied to the Go code on every run by executing both on thousands of generated histories (1-40 outstanding requests, duplicates, late replies, "
-               "deadline +-1 ms, nil callbacks, re-entrant callbacks, unserialisable messages, replies of an unregistered type, unroutable node-level requests/notifies at top level and inside callbacks, id wrap) and the property predicate is evaluated on the implementation's observations.",
+               "deadline +-1 ms, nil callbacks, re-entrant callbacks, unserialisable messages, replies of an unregistered type, unroutable node-level requests/notifies at top level and inside callbacks, id wrap; corpus op `restart`: a callback that really panics under handleResponse, the real supervisor restart, replies crossing it, both expiry timers) and the property predicate is evaluated on the implementation's observations.",
     level_note="Trusted: Lean kernel; the harness/driver line protocol; proto.actor local delivery (FIFO, once); testing/synctest's virtual clock; timer.Mgr's re-arm-after-callback period "
                "(modelled in the driver: ticks at arm time + k*1000 ms). Assumed, not proved here: callbacks run on the service goroutine (C04; observed per callback by goroutine id), "
-               "that the 1 s timer does fire while armed (C14: the liveness theorems take the scans as explicit ops of the history), callbacks invoked by handleResponse do not panic (actor restart: see assumptions; panics of timeout callbacks are modelled). "
+               "that the 1 s timer does fire while armed (C14: the liveness theorems take the scans as explicit ops of the history), callbacks invoked by handleResponse do not panic - what happens when one does (supervisor restart) is now modelled (Model/ServiceLife.lean), proved about per incarnation and tied by the corpus op `restart` (4 parameter sets on every run, not randomly generated); the exactly-once statement itself is per incarnation and FAILS across a restart (reply_crosses_restart). "
                "The theorems are about the model; the differential run ties it to the code on sampled histories only.",
     lean_targets=["Cell2v.Props.C01", "modeld_c01"],
     driver="modeld_c01",
@@ -33,7 +38,10 @@ CONFIG = dict(
                        "response_completes", "reply_completes_for_ever", "undecodable_reply_completes", "request_never_lost", "exactly_once_eventually",
                        "exactly_once_despite_panics", "noroute_completes_once", "noroute_once_for_ever", "noservice_only_from_noroute",
                        "noroute_never_registers", "responds_exactly_to_requests", "idle_scan_frees_timer",
-                       "d22_witness", "d22_fixed", "restart_id_reuse_witness"],
+                       "d22_witness", "d22_fixed", "restart_id_reuse_witness",
+                       "every_incarnation_is_a_run", "cb_at_most_once_across_restarts", "restart_orphans_the_table",
+                       "scan_panic_does_not_restart", "response_reaches_live_only", "orphan_completes_only_by_timeout",
+                       "reply_crosses_restart"],
     harness_pkg="./c01",
     mode="diff",
     reset_prefix="reset",
@@ -56,11 +64,13 @@ CONFIG = dict(
          "deliver a reply (more than the 9-slot dispatcher queue holds), releases it and checks that every reply callback, timer callback and posted closure ran on the one goroutine, never two at once. "
          "The order in which one scan runs several timeout callbacks (Go map order), and which nil-callback entries it had already removed before each of them, "
          "is recorded and fed to the model as its choice. "
+         "Corpus op `restart a b w off` (first op of a case): a requests held by the peer, one whose completion callback panics under handleResponse, +off ms, its reply (mailbox escalation, supervisor restart, producer builds a fresh Service), b requests by the new object, the reply to the OLD request 0, +31 s (both objects' expiry timers): compared sub-step by sub-step with Model/ServiceLife.lean. "
          "A case is non-trivial when something was issued, called back or sent; distinct = distinct (op, observation) pairs",
     trusted_base=[
         "Lean 4.33.0 kernel; axioms of every property theorem audited on each run (allowed: propext, Classical.choice, Quot.sound)",
         "hand-written model lean/Cell2v/Model/Service.lean tied to the Go code by the differential run of this check (harness/c01 + modeld_c01)",
         "the answering peers are real services: ResponseEx's decision is evaluated by the model function respondsTo for every `deliver`",
+        "hand-written restart layer lean/Cell2v/Model/ServiceLife.lean (what the supervisor + factory producer do on a panic: new Service object under the same pid, old object's timer keeps running) tied by the composite harness op `restart` (fixed scenario family a/b/w/off, corpus only); that timer.Mgr recovers panics inside a scan while the mailbox escalates all others is taken from proto.actor / utils/timer and observed by that op and by the P scripts",
         "driver-level model of the expiry timer's phase (armed at T: scans at T+1000k; a tick that falls into a window in which the service goroutine is busy is delivered at its end, +2 ms loop throttle) and of callback scripts (lean/Cell2v/Driver/C01.lean)",
         "go1.26 testing/synctest virtual clock; proto.actor local message delivery; harness canonicalisation (errors -> ok/rerr/err/timeout/noservice, pending ids sorted; status `restarted` when the supervisor replaced the requester object)",
     ],
@@ -69,7 +79,8 @@ CONFIG = dict(
         "a completion callback invoked by handleResponse returns without panicking. If it panics, the mailbox escalates, the supervisor restarts the actor and the producer builds a fresh Service "
         "(empty table, request ids from 1 again, same run-service goroutine): the old incarnation's pending requests are not completed by their replies (the orphaned object's 1 s timer still times them out), "
         "and a reply addressed to an old id completes an UNRELATED request of the new incarnation that was given the same id - 'the response that answers that very request' fails with no wrap of 2^31 ids "
-        "(reproduced on the Go code: opt-in harness test TestRestartWitness; model: theorem restart_id_reuse_witness). Kept out of the generator; every theorem is about one incarnation. "
+        "(reproduced on the Go code on every run: harness op `restart` in corpus/C01/restart.txt, and opt-in test TestRestartWitness; model: Model/ServiceLife.lean, theorems reply_crosses_restart (all histories) and restart_id_reuse_witness). "
+        "The restart is modelled and differentially tied, but it stays an ASSUMPTION of the exactly-once theorems, which are per incarnation; kept out of the random generator (corpus only). "
         "Panics of timeout callbacks (recovered by timer.Mgr) ARE modelled (Op.panic), generated and proved about; a reply that cannot be decoded no longer crashes the requester (D22, repaired, modelled, generated)",
         "all calls into the service happen on its own goroutine (C04; observed per callback by goroutine id); the 1 s timer keeps firing while armed (C14) - the liveness theorems state this as scans present in the op list",
         "the requesting service is not stopped while requests are pending (actor.Stop stops the run service: pending callbacks are dropped, no op for it)",
